@@ -39,7 +39,7 @@ int main(int argc, char** argv) {
     int bad = 0;
     H5::Exception::dontPrint();
     for (auto& c : cases) {
-        std::string fn = std::string("/tmp/vf_h5start_") + c.name + ".h5";
+        std::string fn = std::string("/tmp/vf_h5start_") + std::to_string((long)getpid()) + "_" + c.name + ".h5";
         mk(fn, c.dims);
         fflush(stdout);
         pid_t p = fork();
